@@ -143,7 +143,7 @@ func asFloat(d any) (float64, error) {
 		var i float64
 		intType := reflect.TypeOf(i)
 		dValue := reflect.ValueOf(d)
-		if !dValue.IsValid() || !dValue.CanConvert(intType) {
+		if !dValue.IsValid() || !kindsAgree(dValue.Kind(), intType.Kind()) || !dValue.CanConvert(intType) {
 			return 0, &ConstraintError{
 				Message: fmt.Sprintf("%T is not a valid data type for a float schema.", d),
 			}
